@@ -1,7 +1,11 @@
-"""C14 — checkpoint and restore reproduce the checkpointed state (E2 engine)."""
+"""C14 — checkpoint and restore reproduce the checkpointed state (E2 engine + the mid-level machine Lsm/Checkpoint.v)."""
+import re
+from collections import OrderedDict
+from . import common as C
 from . import e2gen as G
 
-MODEL_TARGETS = ["theories/Spec/Machine.vo"]
+MODEL_TARGETS = ["theories/Spec/Machine.vo", "theories/Lsm/CheckpointInst.vo"]
+PARAM_SECTIONS = ["ckpt"]
 TRUSTED = ["checkpoints are taken while no commit is in flight (sequential scripts); transactions open across a restore are "
            "ended by the script before the restore (their fate is examined under C04, finding C04-N1)"]
 ASSUMPTIONS = []
@@ -120,6 +124,422 @@ def nontrivial(lines, exp):
     return "commit" in ops[i:] and ("flush" in ops[i:] or "compact" in ops[i:]) and ops.count("commit") >= 3
 
 
+# ------------------------------------------------------------------------------------------------------
+# Tie 2 for the mid-level machine (Lsm/Checkpoint.v, extracted with the restore step list GENERATED from
+# Tree::restore_from_checkpoint): E2 checkpoint / restore histories are run by the real store with a dump of its live
+# tables (`e2 tabledump`: facade vlogptr::vlog_state + engine::visible_seq) after every physical command, abstracted to
+# machine steps (`cr` commands of the driver) and every observable output is compared:
+#   commit verdicts, reads and full scans of every transaction (at ITS snapshot; the machine's cache is filled with every
+#   block of every live table before each read: the most any reads could have cached), the table ids handed out by
+#   rotations / flushes / compactions (they are handed out AGAIN after a restore), the content of every live table with
+#   sequence numbers, the visible sequence number, the checkpoint directory opened as a store.
+# Abstraction: begin -> the machine's visible sequence number is the snapshot; a commit -> the write set in the order of
+# each key's LAST write (Txn/WriteSet.v ws_batch); flush -> rotate + flush every immutable memtable; a compaction -> the
+# removed table ids and the (key, seq) pairs of the table that appeared (the machine checks its guard: same view);
+# reopen keeps the cache (the harness re-uses its Options).
+DUMP_AFTER = ("open", "rotate", "flush", "flush1", "compact", "compactauto", "reopen", "checkpoint", "restore")
+MID_OPTS = ["lc=2", "lc=3,bs=64,cache=4096", "lc=1", "lc=3,cache=1024,bs=64,ips=32", "lc=2,cache=512,bs=64", "lc=2,vlog=1,vth=4,vfs=128",
+            "lc=2,cache=256,bs=32,ri=2"]
+
+
+class MidGen(CGen):
+    def emit(self, line):
+        a = CGen.emit(self, line)
+        if line.split()[1] in DUMP_AFTER:
+            self.lines.append("e2 tabledump")
+            self.exp.append("-")
+        return a
+
+
+def directed_reuse(rng, model, opts):
+    """table ids ARE reused: the discarded timeline flushes (and reads: its blocks get cached) tables whose ids the
+    restored timeline hands out again for tables of the same shape with other values, flushed right after the restore"""
+    lines, exp = [], []
+
+    def emit(l):
+        lines.append(l)
+        exp.append(model.ask(l))
+        if l.split()[1] in DUMP_AFTER:
+            lines.append("e2 tabledump")
+            exp.append("-")
+        return exp[-2] if l.split()[1] in DUMP_AFTER else exp[-1]
+    keys = rng.sample(["61", "62", "6162", "63", "6200", "64", "6465", "66"], rng.randint(3, 7))
+    lc = 3
+    for kv in opts.split(","):
+        if kv.startswith("lc="):
+            lc = int(kv[3:])
+    st = dict(tx=0, v=rng.randint(0, 200))
+
+    def val():
+        st["v"] += 1
+        r = rng.random()
+        return "%04x" % (st["v"] & 0xffff) if r < 0.8 else "rep:%d:%d" % (rng.choice([20, 40, 90]), st["v"] & 255)
+
+    def batch(ks, dels=0.1):
+        st["tx"] += 1
+        i = st["tx"]
+        emit("e2 begin %d rw" % i)
+        for k in ks:
+            if rng.random() < dels:
+                emit("e2 %s %d %s" % (rng.choice(["del", "sdel"]), i, k))
+            else:
+                emit("e2 set %d %s %s" % (i, k, val()))
+        emit("e2 commit %d" % i)
+        emit("e2 drop %d" % i)
+
+    def readall(scan=True):
+        st["tx"] += 1
+        i = st["tx"]
+        emit("e2 begin %d ro" % i)
+        if scan:
+            emit("e2 scan %d - ~ f" % i)
+        for k in keys:
+            emit("e2 get %d %s" % (i, k))
+        emit("e2 drop %d" % i)
+
+    def phys(n):
+        for _ in range(n):
+            r = rng.random()
+            if r < 0.5:
+                emit("e2 compact %d" % rng.randint(0, max(0, lc - 1)))
+            elif r < 0.6:
+                emit("e2 compactauto")
+            elif r < 0.75:
+                emit("e2 rotate")
+            elif r < 0.85:
+                emit("e2 flush1")
+            else:
+                emit("e2 reopen")
+    emit("e2 new")
+    emit("e2 open " + opts)
+    for _ in range(rng.randint(1, 3)):
+        batch(rng.sample(keys, rng.randint(1, len(keys))))
+        if rng.random() < 0.7:
+            emit("e2 flush")
+    phys(rng.choice([0, 0, 1, 2]))
+    emit("e2 checkpoint 1")
+    shape = []
+    for _ in range(rng.randint(1, 3)):
+        ks = rng.sample(keys, rng.randint(1, len(keys)))
+        shape.append(ks)
+        batch(ks)
+        emit("e2 flush")
+        readall(scan=rng.random() < 0.5)
+    phys(rng.choice([0, 0, 1, 2]))
+    readall()
+    if rng.random() < 0.25:
+        emit("e2 checkpoint 2")
+    emit("e2 restore 1")
+    readall()
+    for ks in shape:
+        # same keys, other values: tables of the same shape under the same ids
+        batch(ks if rng.random() < 0.8 else rng.sample(keys, rng.randint(1, len(keys))), dels=0.05)
+        emit("e2 flush")
+        readall(scan=rng.random() < 0.5)
+    phys(rng.choice([0, 1, 2, 3]))
+    readall()
+    emit("e2 ckptscan 1")
+    if rng.random() < 0.4:
+        emit("e2 restore %d" % (2 if "e2 checkpoint 2" in lines and rng.random() < 0.5 else 1))
+        readall()
+        batch(rng.sample(keys, rng.randint(1, len(keys))))
+        emit("e2 flush")
+        readall()
+    return lines, exp
+
+
+def parse_tabs(line):
+    """tabs:vis=..;[next=..;]tables=id[k@seq=v,...]|... -> (vis, {id: sorted entries})"""
+    if not line.startswith("tabs:"):
+        return None
+    d = dict(kv.split("=", 1) for kv in line[5:].split(";"))
+    tables = {}
+    for x in [x for x in d["tables"].split("|") if x]:
+        m = re.match(r"(\d+)\[(.*)\]$", x)
+        tables[int(m.group(1))] = sorted(e for e in m.group(2).split(",") if e)
+    return int(d["vis"]), tables
+
+
+def same_entries(a, b):
+    """value-log pointers (`p`) of the implementation stand for any value"""
+    if len(a) != len(b):
+        return False
+    for x, y in zip(a, b):
+        kx, vx = x.split("=", 1)
+        ky, vy = y.split("=", 1)
+        if kx != ky or (vx != vy and vx != "p"):
+            return False
+    return True
+
+
+def in_bounds(k, lo, hi):
+    kb = bytes.fromhex(k)
+    if lo != "~" and kb < (b"" if lo == "-" else bytes.fromhex(lo)):
+        return False
+    if hi != "~" and not kb < (b"" if hi == "-" else bytes.fromhex(hi)):
+        return False
+    return True
+
+
+def derive_mid(lines, got, stats):
+    """-> (cr script, checks) ; checks[i] = None | (kind, expected, e2 line index).  Stops at what the abstraction does not cover."""
+    sc, ck = ["cr new 2"], [None]
+    txs = {}
+    prev = {}
+    seen = {}          # table id -> entries of every table that ever had the id (to count reuse)
+    restored = False
+
+    def add(cmd, chk=None):
+        sc.append(cmd)
+        ck.append(chk)
+    for j, l in enumerate(lines):
+        a = l.split()
+        op = a[1]
+        g = got[j] if j < len(got) else "<missing>"
+        if op in ("new", "levels", "snapshots", "range", "cur", "curclose"):
+            continue
+        if op == "open":
+            continue
+        if op == "tabledump":
+            cur = parse_tabs(g)
+            if cur is None:
+                return sc, ck, "tabledump failed after `%s`: %s" % (lines[j - 1], g[:200])
+            cmd = lines[j - 1].split()[1]
+            added = sorted(set(cur[1]) - set(prev))
+            removed = sorted(set(prev) - set(cur[1]))
+            if cmd in ("compact", "compactauto"):
+                if removed or added:
+                    if len(added) > 1:
+                        stats["unmodelled"] += 1
+                        return sc, ck, None
+                    keep = [e.split("=", 1)[0] for e in cur[1][added[0]]] if added else []
+                    add("cr compact %s %s" % (",".join(map(str, removed)) or "-", ",".join(keep) or "-"),
+                        ("compact", ("table:%d" % added[0]) if added else "none", j))
+                    stats["compactions"] += 1
+            for tid in added:
+                if tid in seen and not same_entries(cur[1][tid], seen[tid]) and not same_entries(seen[tid], cur[1][tid]):
+                    stats["table_ids_reused"] += 1
+                    stats["_reused_now"] = True
+                seen[tid] = cur[1][tid]
+            add("cr tables", ("tables", cur, j))
+            stats["dumps"] += 1
+            prev = cur[1]
+            continue
+        if op == "begin":
+            txs[a[2]] = dict(mode=a[3], ws=OrderedDict())
+            add("cr begin " + a[2])
+        elif op in ("set", "repl", "del", "sdel"):
+            t = txs.get(a[2])
+            if t is not None and g == "ok":
+                t["ws"].pop(a[3], None)
+                t["ws"][a[3]] = a[4] if op in ("set", "repl") else "!"
+        elif op in ("setat", "delat", "sdelat", "sp", "rbsp", "getat", "history", "clock", "close", "commitsync", "flushwal"):
+            stats["unmodelled"] += 1
+            return sc, ck, None
+        elif op == "get":
+            t = txs.get(a[2])
+            if t is not None and g.startswith("val:") and a[3] not in t["ws"] and a[3] != "-":
+                add("cr fillall")
+                add("cr readx %s %s" % (a[2], a[3]), ("read", g, j))
+                stats["reads"] += 1
+                if restored:
+                    stats["reads_after_restore"] += 1
+                if stats.get("_reused_now"):
+                    stats["reads_after_id_reuse"] += 1
+        elif op == "scan":
+            t = txs.get(a[2])
+            if t is not None and g.startswith("list:") and not t["ws"]:
+                add("cr fillall")
+                add("cr scanx " + a[2], ("scan", (g, a[3], a[4], a[5]), j))
+                stats["scans"] += 1
+        elif op == "commit":
+            t = txs.get(a[2])
+            if t is None:
+                continue
+            if t["ws"] and t["mode"] != "ro" and g in ("ok", "err:Conflict", "err:Retry"):
+                add("cr commitx %s %s" % (a[2], ",".join("%s=%s" % kv for kv in t["ws"].items())), ("commit", g, j))
+                stats["commits"] += 1
+                t["ws"] = OrderedDict()
+            if g == "ok":
+                add("cr end " + a[2])
+                txs.pop(a[2], None)
+        elif op in ("rollback", "drop"):
+            if a[2] in txs:
+                add("cr end " + a[2])
+                txs.pop(a[2], None)
+        elif op == "rotate":
+            add("cr rotate")
+        elif op == "flush":
+            add("cr flush", ("flush", None, j))
+            stats["flushes"] += 1
+            if restored:
+                stats["flushes_after_restore"] += 1
+        elif op == "flush1":
+            add("cr flush1", ("flush1", None, j))
+        elif op in ("compact", "compactauto"):
+            pass            # replayed from the dump that follows
+        elif op == "reopen":
+            txs = {}
+            add("cr reopen 1")
+            stats["reopens"] += 1
+        elif op == "checkpoint":
+            if g == "ok":
+                add("cr checkpoint " + a[2], ("flush", None, j))
+                stats["checkpoints"] += 1
+        elif op == "restore":
+            txs = {}
+            add("cr restore " + a[2], ("restore", "ok" if g == "ok" else "bad", j))
+            if g == "ok":
+                stats["restores"] += 1
+                restored = True
+                stats["_reused_now"] = False
+        elif op == "ckptscan":
+            add("cr ckptscan " + a[2], ("ckptscan", g, j))
+            stats["ckptscans"] += 1
+        else:
+            stats["unmodelled"] += 1
+            return sc, ck, None
+    return sc, ck, None
+
+
+def check_mid(program, script, checks, answers, stats, dis):
+    lines = program
+    new_ids = None
+    for k, c in enumerate(checks):
+        if c is None:
+            continue
+        kind, want, j = c
+        m = answers[k] if k < len(answers) else "<missing>"
+        bad = None
+        if kind == "read":
+            if m != want:
+                bad = "`%s`: implementation %s, machine %s" % (lines[j], want, m)
+        elif kind == "scan":
+            g, lo, hi, d = want
+            if not m.startswith("list:"):
+                bad = "`%s`: machine answers %s" % (lines[j], m)
+            else:
+                items = [x for x in m[5:].split(",") if x and in_bounds(x.split("=")[0], lo, hi)]
+                if d == "b":
+                    items.reverse()
+                if "list:" + ",".join(items) != g:
+                    bad = "`%s`: implementation %s, machine %s" % (lines[j], g[:300], ("list:" + ",".join(items))[:300])
+        elif kind == "commit":
+            okm = {"ok": "seq:", "err:Conflict": "conflict", "err:Retry": "retry"}[want]
+            if not m.startswith(okm):
+                bad = "`%s`: implementation %s, machine %s" % (lines[j], want, m)
+        elif kind in ("flush", "flush1", "compact"):
+            # the table ids the machine hands out are compared with the tables that appear in the next dump
+            if kind == "compact" and m != want:
+                bad = "`%s`: implementation's compaction gives %s, machine %s" % (lines[j - 1], want, m)
+            new_ids = m
+        elif kind == "restore":
+            if m != want:
+                bad = "`%s`: implementation %s, machine %s" % (lines[j], want, m)
+        elif kind == "ckptscan":
+            if m != want:
+                bad = "`%s`: implementation %s, machine %s" % (lines[j], want[:300], m[:300])
+        elif kind == "tables":
+            vis, tabs = want
+            pm = parse_tabs(m)
+            if pm is None:
+                bad = "machine dump failed: " + m
+            elif pm[0] != vis:
+                bad = "visible sequence number after `%s`: implementation %d, machine %d" % (lines[j - 1], vis, pm[0])
+            elif sorted(pm[1]) != sorted(tabs):
+                bad = "live table ids after `%s`: implementation %s, machine %s (machine handed out %s)" % (lines[j - 1], sorted(tabs), sorted(pm[1]), new_ids)
+            else:
+                for tid in tabs:
+                    if not same_entries(tabs[tid], pm[1][tid]):
+                        bad = "table %d after `%s`: implementation %s, machine %s" % (tid, lines[j - 1], tabs[tid][:40], pm[1][tid][:40])
+                        break
+        stats["compared"] += 1
+        if bad:
+            if len(dis) < 6:
+                dis.append("checkpoint machine (Lsm/Checkpoint.v): " + bad + " || program: " +
+                           " ; ".join(x[3:] for x in lines[:j + 1] if x != "e2 tabledump")[:1800])
+            return False
+    return True
+
+
+def mid_stats(n):
+    return dict(programs=n, compared=0, dumps=0, reads=0, scans=0, commits=0, flushes=0, compactions=0, reopens=0, checkpoints=0,
+                restores=0, ckptscans=0, reads_after_restore=0, flushes_after_restore=0, table_ids_reused=0, reads_after_id_reuse=0,
+                programs_with_id_reuse=0, unmodelled=0, api_mismatch=0, cache_caps={})
+
+
+def correspondence(ctx):
+    rng = C.Rng(ctx["seed"] * 7919 + 14)
+    n = 90 if ctx["tier"] == "quick" else 1200
+    res = dict(violations=[], disagreements=[], cov={})
+    if not ctx["have_model"]:
+        res["disagreements"].append("checkpoint machine unavailable (extraction/driver did not build)")
+        return res
+    model = G.Model()
+    if model.ask("cr params") != "ok":
+        res["disagreements"].append("the sources no longer have the shape Lsm/Checkpoint.v builds in (ckpt_params_ok = false: "
+                                    "see Lsm/CheckpointParams.v)")
+    W2 = dict(begin=8, write=40, get=16, scan=6, range=0, cur=0, sp=0, rbsp=0, commit=14, rollback=1, drop=3,
+              rotate=4, flush=10, flush1=3, compact=10, compactauto=1, reopen=2)
+    programs = []
+    for i in range(n):
+        opts = MID_OPTS[i % len(MID_OPTS)]
+        if i % 3 != 2:
+            lines, exp = directed_reuse(rng, model, opts)
+        else:
+            g = MidGen(rng, model, opts=opts, weights=W2, keys=["61", "62", "6162", "63"], max_tx=3)
+            g.start()
+            for _ in range(rng.randint(60, 150)):
+                g.step()
+            lines, exp = g.finish()
+        programs.append((lines, exp, opts))
+    model.close()
+    got = G.run_impl([(l, e) for (l, e, _) in programs])
+    stats = mid_stats(len(programs))
+    scripts, checks = [], []
+    for (lines, exp, opts), g in zip(programs, got):
+        g = g or []
+        cap = "default"
+        for kv in opts.split(","):
+            if kv.startswith("cache="):
+                cap = kv[6:]
+        stats["cache_caps"][cap] = stats["cache_caps"].get(cap, 0) + 1
+        # the API answers must still equal the specification machine
+        for j, l in enumerate(lines):
+            if l == "e2 tabledump" or l in G.INFO:
+                continue
+            gj = g[j] if j < len(g) else "<missing>"
+            if gj != exp[j]:
+                stats["api_mismatch"] += 1
+                if len(res["violations"]) < 2:
+                    desc = "`%s`: implementation answers %s, specification %s (checkpoint-machine run, options %s)" % (l, gj[:160], exp[j][:160], opts)
+                    res["violations"].append((desc, G.replay_text("C14", desc, [x for x in lines[:j + 1] if x != "e2 tabledump"],
+                                                                  [e for x, e in zip(lines[:j + 1], exp[:j + 1]) if x != "e2 tabledump"],
+                                                                  [e for x, e in zip(lines[:j + 1], g[:j + 1]) if x != "e2 tabledump"])))
+                break
+        before = stats["table_ids_reused"]
+        stats["_reused_now"] = False
+        sc, ck, err = derive_mid(lines, g, stats)
+        if stats["table_ids_reused"] > before:
+            stats["programs_with_id_reuse"] += 1
+        if err and len(res["disagreements"]) < 6:
+            res["disagreements"].append(err)
+        scripts.append(sc)
+        checks.append(ck)
+    stats.pop("_reused_now", None)
+    shards = C.shard(list(range(len(scripts))), C.NCPU)
+    out = C.run_pairs([[l for i in sh for l in scripts[i]] for sh in shards], sides=("model",))
+    for sh, r in zip(shards, out):
+        ans = r["model"][0]
+        pos = 0
+        for i in sh:
+            a = ans[pos:pos + len(scripts[i])]
+            pos += len(scripts[i])
+            check_mid(programs[i][0], scripts[i], checks[i], a, stats, res["disagreements"])
+    res["cov"] = stats
+    return res
+
+
 def explore(ctx):
     orig = G.ProgGen
     G.ProgGen = CGen
@@ -127,6 +547,17 @@ def explore(ctx):
         r = G.explore_profiles(ctx, "C14", PROFILES, nontrivial, n_quick=200, n_thorough=3000)
     finally:
         G.ProgGen = orig
+    mid = correspondence(ctx)
+    r["violations"] += mid["violations"]
+    r["disagreements"] += mid["disagreements"]
+    r["coverage"]["checkpoint_machine"] = mid["cov"]
+    r["coverage"]["evaluations"] += mid["cov"].get("compared", 0)
+    r["coverage"]["checkpoint_machine_rule"] = (
+        "every E2 checkpoint/restore history of this part is also run through the extracted Lsm/Checkpoint.v machine (restore step list generated "
+        "from Tree::restore_from_checkpoint); compared: commit verdicts, reads and scans at each transaction's snapshot (machine cache filled with "
+        "every live block first), table ids handed out by rotations/flushes/compactions, content + sequence numbers of every live table and the "
+        "visible sequence number after every physical command, checkpoint-as-store content; table_ids_reused = tables created after a restore under an "
+        "id that named a table with other content before; reads_after_id_reuse = reads compared after such a reuse in the same program")
     r["coverage"]["rule"] = ("histories with checkpoints taken anywhere, flushes/compactions creating new tables and vlog files between checkpoint "
                              "and restore, restore, then commits / flush / compaction / reopen on the restored timeline (table ids are reused), "
                              "the checkpoint directory opened as a database of its own; small caches, vlog / versioning / version index on and off; "
